@@ -32,7 +32,7 @@ func (c01) Info(t core.Tier) core.Info {
 	}
 }
 
-func (c01) NumCases(t core.Tier) int { return tierN(t, 2000, 120000) }
+func (c01) NumCases(t core.Tier) int { return tierN(t, 24000, 600000) }
 
 type c01walker struct {
 	mode       ref.Mode
